@@ -116,6 +116,25 @@ CLAIMED = {
             'Trusted: Lean kernel, standard axioms, translators g_defs.py/g_rules.py (rule objects and handler identities, '
             'required_space as a truth table over all code points), Model/Unparse.lean tied by S3/S4 on all rule sets.',
             'DESIGN.md §6 C20'),
+    'C04': ('Lean 4 kernel decisions over the regenerated grammar and action table (AUTOSEMI only as last symbol, SEMI/AUTOSEMI twin '
+            'productions with identical semantic actions, no empty-statement twin) plus decision lemmas proved over the lexer model '
+            'for all states; semicolon-subset differential against the Lean ES5.1 reference parser',
+            'asi_grammar_facts and asi_twins_same_tree are re-decided on every run; auto_semi_decision / auto_semi_effect / '
+            'pushed_back_token_is_next characterise exactly when calmjs inserts a semicolon, for every lexer state. The end-to-end '
+            'statement (same tree for every subset of omitted removable semicolons) is not proved; it is judged on generated programs '
+            'with random subsets omitted under LF/CR/CRLF/U+2028/U+2029 layouts against Spec.Es5Parse (7.9), with the recorded '
+            'deviations of calmjs\'s look-behind rule excluded by syntactic class predicates.',
+            'Trusted: Lean kernel, standard axioms, translators, Spec.Es5Parse 7.9 as oracle, composed parser model tied by S2.',
+            'DESIGN.md §6 C04'),
+    'C05': ('Lean 4 kernel decisions over the regenerated LALR tables x heuristic token sets (no regex after simple tokens, no division '
+            'after operator punctuators, exclusive states after `)`) plus the division decision lemma proved over the lexer model; '
+            'per-offset differential of every `/` against the reference parser',
+            'simple_tokens_never_regex / punctuators_never_div / rparen_states_exclusive are re-decided on every run over the tables and '
+            'TOKENS_THAT_IMPLY_DIVISON regenerated from /repo; div_allowed_iff / div_decision / div_decision_independent_of_position hold '
+            'for every lexer state. Not proved: agreement of the lexer\'s parenthesis stack with the LR stack; judged by classifying every '
+            '`/` by source offset in 45 expression x 23 statement contexts x 10 followers x layouts and generated programs.',
+            'Trusted: Lean kernel, standard axioms, translators, Spec.Es5Parse as oracle (goal symbol chosen by the reference parser).',
+            'DESIGN.md §6 C05'),
     'C17': ('Lean 4 kernel decision (decide +kernel) of equality of the three regenerated LALR table sets and lexer rule lists, '
             'lifted to all inputs by a generic theorem about the LR driver model; cross-configuration differential tie',
             'The tables of the three configurations (generated modules / in-memory unoptimised / regenerated by optimize.reoptimize) '
